@@ -32,6 +32,8 @@ func checkC10(p *Prog, r *Report) {
 	r.Floor("STREAMPOS", 1)
 	r.Floor("PFXREC", 7)
 	ruleMarker(p, r)
+	ruleFillByte(p, r)
+	r.Floor("FILLBYTE", 1)
 	ruleWindow(p, r)
 	ruleHDR(p, r, "jpeg")
 	ruleJpegOwn(p, r)
